@@ -29,7 +29,8 @@ LEVEL_TEXT = ("Real child processes (well-behaved, exiting at every step k of th
               ' Also a child flooding stdout with short lines that are not messages.'
               ' Also a flood without line breaks (repeated attempts, race-dependent), and (virtual time, scripted child) a request pending on the per-request API when the child dies / the context is left.'
               ' Also exits that take longer than the designed 2.5 s plus slack are measured again twice (three in a row are a violation); the longest exit per child and exit path is recorded in the evidence.'
-              ' Also a child that floods batch arrays and never reads its stdin, on a connection settled on a revision without batching (and one with).')
+              ' Also a child that floods batch arrays and never reads its stdin, on a connection settled on a revision without batching (and one with).'
+              ' Also two requests pending on the per-request API under ids of different JSON types when the context is left.')
 LEVEL_NOTE = ("Trusted: /proc inspection, the spy around anyio.open_process (records pids of every spawn). Wall-clock bound "
               "uses 1.5 s slack; a breach is re-measured once in isolation and only a reproduced breach is a violation "
               "(a single one is inconclusive).")
@@ -139,6 +140,11 @@ def gen_cases(ctx) -> List[Dict[str, Any]]:
                           "version": "2025-06-18", "idle": idle})
     cases.append({"behaviour": "flood_batches", "exit": "normal", "moment": "before_first", "api": "client_object_versioned",
                   "version": "2025-03-26", "idle": 0.5})
+    # two requests pending on the per-request API under ids of different JSON types when the context is left
+    for b in ("never_read", "ignore_sigterm"):
+        for e in exits:
+            cases.append({"behaviour": b, "exit": e, "moment": "before_first", "api": "client_object_pending_stream", "idle": 0.2,
+                          "second_pending_id": 7})
     # a request made through the per-request API is still unanswered when the context is left (every exit path)
     for b in ("never_read", "ignore_sigterm", "well_behaved", "sigterm_slow:0.5"):
         for e in exits + ["deadline_during_exit"]:
